@@ -406,6 +406,96 @@ fn map_events(c: &Value) -> Vec<Value> {
     evs
 }
 
+// ----------------------------------------------------------------------------- the dynamic endpoints (Endpoints.tla)
+/// One abstract request to (or near) one of the four dynamic endpoints, rendered independently of the library's
+/// writers, sent through Server::process; the answer is reported as status, content type and CRLF-terminated lines.
+fn endpoint(c: &Value) -> Value {
+    fn enc(s: &str) -> String {
+        s.bytes().map(|b| if b.is_ascii_alphanumeric() || b"-_.~".contains(&b) { (b as char).to_string() } else { format!("%{:02X}", b) }).collect()
+    }
+    fn enc_pairs(v: &Value) -> String {
+        v.as_array().map(|a| a.iter().map(|p| format!("{}={}", enc(p[0].as_str().unwrap_or("")), enc(p[1].as_str().unwrap_or("")))).collect::<Vec<_>>().join("&")).unwrap_or_default()
+    }
+    let base = match c["pcls"].as_str().unwrap_or("") {
+        "upload" => "/file-upload/initiate",
+        "form_url" => "/form-url-encoded-enctype-post-method",
+        "form_get" => "/form-get-method",
+        _ => "/form-multipart-enctype-post-method",
+    };
+    let path = match c["pvar"].as_str().unwrap_or("") {
+        "exact" => base.to_string(),
+        "trailing_slash" => format!("{}/", base),
+        "upper" => base.to_uppercase(),
+        _ => format!("{}x", base),
+    };
+    let target = if c["query"]["p"].as_bool() == Some(true) { format!("{}?{}", path, enc_pairs(&c["query"]["pairs"])) } else { path };
+    let boundary = "XyZ123";
+    let cls = c["ctype"].as_str().unwrap_or("none");
+    let ctype = match cls {
+        "form_exact" => Some("application/x-www-form-urlencoded".to_string()),
+        "form_upper" => Some("Application/X-WWW-Form-UrlEncoded".to_string()),
+        "form_param" => Some("application/x-www-form-urlencoded; charset=UTF-8".to_string()),
+        "multi" => Some(format!("multipart/form-data; boundary={}", boundary)),
+        "multi_upper" => Some(format!("Multipart/Form-Data; boundary={}", boundary)),
+        "multi_two_blanks" => Some(format!("multipart/form-data;  boundary={}", boundary)),
+        "multi_no_boundary" => Some("multipart/form-data".to_string()),
+        "other" => Some("text/plain".to_string()),
+        _ => None,
+    };
+    let method = c["method"].as_str().unwrap_or("GET");
+    let body: Vec<u8> = if cls.starts_with("multi") {
+        let mut b = vec![];
+        for p in c["parts"].as_array().cloned().unwrap_or_default() {
+            b.extend_from_slice(format!("--{}\r\n", boundary).as_bytes());
+            if p["named"].as_bool() == Some(true) {
+                b.extend_from_slice(format!("Content-Disposition: form-data; name=\"{}\"\r\n", p["name"].as_str().unwrap_or("")).as_bytes());
+            } else {
+                b.extend_from_slice(b"Content-Type: text/plain\r\n");
+            }
+            b.extend_from_slice(b"\r\n");
+            b.extend_from_slice(p["body"].as_str().unwrap_or("").as_bytes());
+            b.extend_from_slice(b"\r\n");
+        }
+        b.extend_from_slice(format!("--{}--\r\n", boundary).as_bytes());
+        b
+    } else if method == "POST" || method == "PUT" {
+        enc_pairs(&c["form"]).into_bytes()
+    } else {
+        vec![]
+    };
+    let mut req = format!("{} {} HTTP/1.1\r\nHost: localhost\r\n", method, target);
+    if let Some(ct) = &ctype {
+        req += &format!("Content-Type: {}\r\n", ct);
+    }
+    if method == "POST" || method == "PUT" {
+        req += &format!("Content-Length: {}\r\n", body.len());
+    }
+    req += "\r\n";
+    let mut bytes = req.into_bytes();
+    bytes.extend_from_slice(&body);
+    let alloc = c["alloc"].as_i64().unwrap_or(10000);
+    std::env::set_var("RWS_CONFIG_REQUEST_ALLOCATION_SIZE_IN_BYTES", alloc.to_string());
+    let (mock, wire) = Mock::new(bytes);
+    let ran = run_prod(mock, wire, alloc);
+    std::env::set_var("RWS_CONFIG_REQUEST_ALLOCATION_SIZE_IN_BYTES", "10000");
+    let p = project(&ran.raw, "full");
+    let body = bytes_of(&p["body"]);
+    let text = String::from_utf8_lossy(&body).to_string();
+    let mut lines: Vec<String> = text.split("\r\n").map(|x| x.to_string()).collect();
+    match lines.last() {
+        Some(l) if l.is_empty() => { lines.pop(); }
+        Some(_) => { let n = lines.len() - 1; lines[n] += "<no-crlf>"; }
+        None => {}
+    }
+    let mut rct = String::new();
+    for h in p["hs"].as_array().cloned().unwrap_or_default() {
+        if h["nl"] == "content-type" {
+            rct = h["v"].as_str().unwrap_or("").to_string();
+        }
+    }
+    json!({"op": "endpoint", "req": c, "obs": {"outcome": ran.outcome, "status": p["status"].as_u64().unwrap_or(0), "ctype": rct, "lines": lines}})
+}
+
 pub fn run(o: &Opts) -> i32 {
     let mut out = Out::create(o.req("out"));
     let cases = read_ndjson(o.req("cases"));
@@ -437,6 +527,7 @@ pub fn run(o: &Opts) -> i32 {
                         out.emit(&e);
                     }
                 }
+                "endpoint" => out.emit(&endpoint(c)),
                 "multipart" => out.emit(&multipart(c)),
                 "multipart_corrupt" => out.emit(&multipart_corrupt(c)),
                 "boundary_param" => out.emit(&boundary_param(c)),
